@@ -53,7 +53,8 @@ Inductive akind := KSl (i : nat) | KConds | KHooks.
 Definition atag := (oid * akind)%type.
 Definition mtag := (oid * nat)%type.
 
-Record owners := { owA : list atag; owM : list mtag; owR : list oid; owJ : list oid }.
+(* boxes: (owner, kind) with kind 0 = cookie jar, 1 = *DumpOptions, 2 = *tls.Config *)
+Record owners := { owA : list atag; owM : list mtag; owR : list oid; owJ : list mtag }.
 
 Definition sl_ok (A : list (list val)) (oA : list atag) (t : atag) (s : slice) : Prop :=
   match s with
@@ -245,14 +246,17 @@ Definition rt_ok (A : list (list val)) (R : list retry) (oA : list atag) (oR : l
       sl_ok A oA (id, KConds) (r_conds (nth a R retry0)) /\
       sl_ok A oA (id, KHooks) (r_hooks (nth a R retry0))
   end.
-Definition jar_ok (oJ : list oid) (id : oid) (j : option nat) (fact : bool) : Prop :=
-  match j with None => True | Some a => nth_error oJ a = Some id /\ fact = true end.
+Definition jar_ok (oJ : list mtag) (id : oid) (j : option nat) (fact : bool) : Prop :=
+  match j with None => True | Some a => nth_error oJ a = Some (id, 0) /\ fact = true end.
+Definition ext_ok (oJ : list mtag) (id : oid) (e : oext) : Prop :=
+  mp_ok oJ (id, 1) (e_dopt e) /\ mp_ok oJ (id, 1) (e_dumper e) /\ mp_ok oJ (id, 2) (e_tls e).
 
 Record obj_ok (H : heap) (ow : owners) (id : oid) (o : obj) : Prop := {
   ok_sl : comp_sl (arrs H) (owA ow) id (o_sl o);
   ok_mp : comp_mp (owM ow) id (o_mp o);
   ok_rt : rt_ok (arrs H) (recs H) (owA ow) (owR ow) id (o_rt o);
-  ok_jar : jar_ok (owJ ow) id (o_jar o) (o_fact o) }.
+  ok_jar : jar_ok (owJ ow) id (o_jar o) (o_fact o);
+  ok_ext : ext_ok (owJ ow) id (o_ext o) }.
 
 Lemma map_nth_ext {A B} (f g : A -> B) (l : list A) d :
   (forall i, f (nth i l d) = g (nth i l d)) -> map f l = map g l.
@@ -301,15 +305,36 @@ Proof.
 Qed.
 
 Lemma jar_ok_frame (J : list (list val)) oJ (J' : list (list val)) e W id j fact :
-  jar_ok oJ id j fact -> frame [] W J oJ J' -> ~ W id ->
+  jar_ok oJ id j fact -> frame [] W J oJ J' -> ~ W (id, 0) ->
   jar_ok (oJ ++ e) id j fact /\
   match j with None => None | Some a => Some (nth a J' []) end = match j with None => None | Some a => Some (nth a J []) end.
 Proof.
   destruct j as [a|]; simpl; auto.
-  intros [Ht Hf] [_ F] Hw. rewrite (F a id Ht Hw). auto using nth_error_app_old.
+  intros [Ht Hf] [_ F] Hw. rewrite (F a (id, 0) Ht Hw). auto using nth_error_app_old.
 Qed.
 
-Definition hframe (WA : atag -> Prop) (WM : mtag -> Prop) (WR WJ : oid -> Prop) (H : heap) (ow : owners) (H' : heap) : Prop :=
+Lemma bx_ok_frame (J : list (list val)) oJ (J' : list (list val)) e W t p :
+  mp_ok oJ t p -> frame [] W J oJ J' -> ~ W t ->
+  mp_ok (oJ ++ e) t p /\ bx_read J' p = bx_read J p /\ (forall b, p = Some b -> nth b J' [] = nth b J []).
+Proof.
+  destruct p as [a|]; simpl; [|intros; repeat split; auto; discriminate].
+  intros Ht [_ F] Hw. rewrite (F a t Ht Hw). repeat split; auto using nth_error_app_old.
+  intros b E; inversion E; subst. apply (F b t Ht Hw).
+Qed.
+
+Lemma ext_ok_frame (J : list (list val)) oJ (J' : list (list val)) e W id x :
+  ext_ok oJ id x -> frame [] W J oJ J' -> ~ W (id, 1) -> ~ W (id, 2) ->
+  ext_ok (oJ ++ e) id x /\ abs_ext J' x = abs_ext J x.
+Proof.
+  intros (H1 & H2 & H3) F W1 W2.
+  destruct (bx_ok_frame _ _ _ e _ _ _ H1 F W1) as (A1 & B1 & _).
+  destruct (bx_ok_frame _ _ _ e _ _ _ H2 F W1) as (A2 & _ & C2).
+  destruct (bx_ok_frame _ _ _ e _ _ _ H3 F W2) as (A3 & B3 & _).
+  split; [repeat split; auto|]. unfold abs_ext. rewrite B1, B3.
+  destruct (e_dumper x) as [b|]; auto. now rewrite (C2 b eq_refl).
+Qed.
+
+Definition hframe (WA : atag -> Prop) (WM : mtag -> Prop) (WR : oid -> Prop) (WJ : mtag -> Prop) (H : heap) (ow : owners) (H' : heap) : Prop :=
   frame [] WA (arrs H) (owA ow) (arrs H') /\ frame [] WM (maps H) (owM ow) (maps H') /\
   frame retry0 WR (recs H) (owR ow) (recs H') /\ frame [] WJ (jars H) (owJ ow) (jars H').
 
@@ -322,19 +347,20 @@ Lemma abs_obj_eq H o :
      v_rt := rt_view (arrs H) (recs H) (o_rt o);
      v_chain := o_chain o; v_tchain := o_tchain o; v_scal := o_scal o;
      v_jar := match o_jar o with None => None | Some a => Some (nth a (jars H) []) end;
-     v_fact := o_fact o; v_par := o_par o |}.
+     v_fact := o_fact o; v_par := o_par o; v_ext := abs_ext (jars H) (o_ext o) |}.
 Proof. unfold abs_obj. rewrite rt_read_view. reflexivity. Qed.
 
 Lemma obj_frame H ow H' eA eM eR eJ WA WM WR WJ id o :
   obj_ok H ow id o -> hframe WA WM WR WJ H ow H' ->
-  (forall k, ~ WA (id, k)) -> (forall i, ~ WM (id, i)) -> ~ WR id -> ~ WJ id ->
+  (forall k, ~ WA (id, k)) -> (forall i, ~ WM (id, i)) -> ~ WR id -> (forall k, ~ WJ (id, k)) ->
   obj_ok H' (ext ow eA eM eR eJ) id o /\ abs_obj H' o = abs_obj H o.
 Proof.
-  intros [O1 O2 O3 O4] (FA & FM & FR & FJ) W1 W2 W3 W4.
+  intros [O1 O2 O3 O4 O5] (FA & FM & FR & FJ) W1 W2 W3 W4.
   destruct (comp_sl_frame _ _ _ eA _ _ _ O1 FA (fun i => W1 (KSl i))) as [S1 E1].
   destruct (comp_mp_frame _ _ _ eM _ _ _ O2 FM W2) as [S2 E2].
   destruct (rt_ok_frame _ _ _ _ _ _ eA eR _ _ _ _ O3 FA FR (W1 KConds) (W1 KHooks) W3) as [S3 E3].
-  destruct (jar_ok_frame _ _ _ eJ _ _ _ _ O4 FJ W4) as [S4 E4].
+  destruct (jar_ok_frame _ _ _ eJ _ _ _ _ O4 FJ (W4 0)) as [S4 E4].
+  destruct (ext_ok_frame _ _ _ eJ _ _ _ O5 FJ (W4 1) (W4 2)) as [S5 E5].
   split; [constructor; auto|].
-  rewrite !abs_obj_eq, E1, E2, E3, E4. reflexivity.
+  rewrite !abs_obj_eq, E1, E2, E3, E4, E5. reflexivity.
 Qed.
